@@ -13,7 +13,7 @@ CONSTANTS
   Cap = 3
   InitDests <- D1
   AnyOrder = FALSE
-  Feat = {"finish", "task", "alog"}
+  Feat = {"finish", "task", "alog", "logcall"}
 INVARIANT C02_Unique
 INVARIANT C02_Contiguous
 INVARIANT C02_StartAtOne
